@@ -283,7 +283,7 @@ End KvSafe.
 
 (* ------------------------------------------------------------ file names of any length *)
 
-Lemma crash_noop_prefix : forall w name k cut d,
+Lemma crash_noop_prefix : forall (w : bool) (name : string) (k cut : nat) (d : dir),
   crash (if w then [OOpenW name] else []) k cut d = d.
 Proof.
   intros w name k cut d. destruct w; unfold crash.
@@ -325,7 +325,8 @@ Proof.
   intros K parsekv name h data d k cut c. subst c. unfold service_ops_fs.
   destruct (tmp_creatable name).
   - now apply kv_crash_safe.
-  - left. now rewrite crash_noop_prefix.
+  - left. change (@nil op) with (if false then [OOpenW name] else @nil op).
+    now rewrite crash_noop_prefix.
 Qed.
 
 (* ------------------------------------------------------------ the unchanged tree is refuted *)
